@@ -28,7 +28,7 @@ theorem idsDown_length (cur : PageId) (n : Nat) : (idsDown cur n).length = n := 
 theorem pushLoop_some (st : Store Node) (T : PageId) : ∀ (n : Nat) (cur : PageId), cur.length = T.length + n → T <+: cur →
     (∀ Q, Q <+: cur → T.length < Q.length → Loadable H ps st Q) →
     ∃ l, pushLoop ps (some T) (cur.length + 1) cur = .ok l ∧ l.map (·.pageId) = idsDown cur n ∧
-      (∀ sp ∈ l, PageMatches H sp st ∧ CountersOK sp) := by
+      (∀ sp ∈ l, PageMatches H sp st ∧ CountersOK sp ∧ DiffOK H ps sp) := by
   intro n
   induction n with
   | zero =>
@@ -66,14 +66,15 @@ theorem pushLoop_some (st : Store Node) (T : PageId) : ∀ (n : Nat) (cur : Page
     · intro sp hsp
       rcases List.mem_cons.mp hsp with e | hsp'
       · rw [e]
-        exact ⟨⟨hl126, fun q hq hql hqp => hm q hq hql hqp⟩, Or.inl ⟨rfl, rfl⟩⟩
+        exact ⟨⟨hl126, fun q hq hql hqp => hm q hq hql hqp⟩, Or.inl ⟨rfl, rfl⟩,
+          ⟨pg.nodes, Or.inr ⟨pg.elided, _, hget⟩, fun i _ hne => absurd rfl hne⟩⟩
       · exact hprops sp hsp'
 
 /-- the pages `build_stack` pushes without a target: down to the root page -/
 theorem pushLoop_none (st : Store Node) : ∀ (n : Nat) (cur : PageId), cur.length = n →
     (∀ Q, Q <+: cur → Loadable H ps st Q) →
     ∃ l, pushLoop ps none (cur.length + 1) cur = .ok l ∧ l.map (·.pageId) = idsDown cur (n + 1) ∧
-      (∀ sp ∈ l, PageMatches H sp st ∧ CountersOK sp) := by
+      (∀ sp ∈ l, PageMatches H sp st ∧ CountersOK sp ∧ DiffOK H ps sp) := by
   intro n
   induction n with
   | zero =>
@@ -88,7 +89,8 @@ theorem pushLoop_none (st : Store Node) : ∀ (n : Nat) (cur : PageId), cur.leng
     · intro sp hsp
       rw [List.mem_singleton] at hsp
       rw [hsp]
-      exact ⟨⟨hl126, fun q hq hql hqp => hm q hq hql hqp⟩, Or.inl ⟨rfl, rfl⟩⟩
+      exact ⟨⟨hl126, fun q hq hql hqp => hm q hq hql hqp⟩, Or.inl ⟨rfl, rfl⟩,
+        ⟨pg.nodes, Or.inr ⟨pg.elided, _, hget⟩, fun i _ hne => absurd rfl hne⟩⟩
   | succ n ih =>
     intro cur hlen hload
     have hcne : cur ≠ [] := by intro e; rw [e] at hlen; simp at hlen
@@ -108,7 +110,8 @@ theorem pushLoop_none (st : Store Node) : ∀ (n : Nat) (cur : PageId), cur.leng
     · intro sp hsp
       rcases List.mem_cons.mp hsp with e | hsp'
       · rw [e]
-        exact ⟨⟨hl126, fun q hq hql hqp => hm q hq hql hqp⟩, Or.inl ⟨rfl, rfl⟩⟩
+        exact ⟨⟨hl126, fun q hq hql hqp => hm q hq hql hqp⟩, Or.inl ⟨rfl, rfl⟩,
+          ⟨pg.nodes, Or.inr ⟨pg.elided, _, hget⟩, fun i _ hne => absurd rfl hne⟩⟩
       · exact hprops sp hsp'
 
 /-! ## chains of `idsDown` -/
@@ -240,7 +243,7 @@ theorem sim_buildStack {w : Walker Node} {a : TW Node} (h : Sim H ps w a) (posit
   simp only
   -- the pages pushed
   have hpush : ∃ l, pushLoop ps w.stackTarget ((specPage position.path).length + 1) (specPage position.path) = .ok l ∧
-      (∀ sp ∈ l, PageMatches H sp a.store ∧ CountersOK sp) ∧
+      (∀ sp ∈ l, PageMatches H sp a.store ∧ CountersOK sp ∧ DiffOK H ps sp) ∧
       ChainBelow w.parentPage (l.map (·.pageId) ++ w.stack.map (·.pageId)) ∧
       (∀ sp rest, l ++ w.stack = sp :: rest → sp.pageId = specPage position.path) ∧ l ++ w.stack ≠ [] := by
     unfold Walker.stackTarget
@@ -359,7 +362,7 @@ theorem sim_buildStack {w : Walker Node} {a : TW Node} (h : Sim H ps w a) (posit
   have hst' : ({ w with position := position } : Walker Node).stackTarget = w.stackTarget := rfl
   rw [hst', hl]
   refine ⟨_, rfl, ?_, Same.rfl' _, rfl⟩
-  refine ⟨hpw, rfl, h.root, ?_, ?_, ?_, ?_, ?_, h.norecon, h.cpr, h.outs⟩
+  refine ⟨hpw, rfl, h.root, ?_, ?_, ?_, ?_, ?_, h.norecon, h.cpr, h.outs, h.nofix, ?_⟩
   · show l ++ w.stack = [] ↔ position.path.length ≤ 6 * k0 w.parentPage
     constructor
     · intro e; exact absurd e hnonempty
@@ -374,8 +377,12 @@ theorem sim_buildStack {w : Walker Node} {a : TW Node} (h : Sim H ps w a) (posit
     · exact h.pages sp h1
   · intro sp hsp
     rcases List.mem_append.mp hsp with h1 | h1
-    · exact (hprops sp h1).2
+    · exact (hprops sp h1).2.1
     · exact h.counters sp h1
+  · intro sp hsp
+    rcases List.mem_append.mp hsp with h1 | h1
+    · exact (hprops sp h1).2.2
+    · exact h.diffs sp h1
 
 /-- `build_stack` to the root position (only possible with an empty stack and no parent page) -/
 theorem sim_buildStack_root {w : Walker Node} {a : TW Node} (h : Sim H ps w a) (position : Pos) (hpw : position.WF)
@@ -390,10 +397,11 @@ theorem sim_buildStack_root {w : Walker Node} {a : TW Node} (h : Sim H ps w a) (
   rw [hst]
   simp only [List.length_nil, Walker.popAll]
   refine ⟨_, rfl, ?_, ⟨hpar.symm, rfl, rfl, rfl, rfl⟩, rfl⟩
-  refine ⟨hpw, hnil, h.root, ?_, ?_, ?_, ?_, ?_, h.norecon, h.cpr, h.outs⟩
+  refine ⟨hpw, hnil, h.root, ?_, ?_, ?_, ?_, ?_, h.norecon, h.cpr, h.outs, h.nofix, ?_⟩
   · simp
   · intro sp rest e; cases e
   · trivial
+  · intro sp hsp; cases hsp
   · intro sp hsp; cases hsp
   · intro sp hsp; cases hsp
 
